@@ -29,6 +29,10 @@ MAXVIOL = 6
 
 F_REGSPLIT, F_NESTED, F_CAPT = "C09-struct-split-reg-stack", "C09-amd64-nested-padding", "C09-capturing-closure-callback"
 F_GOBYTES, F_CBYTES0 = "C09-gobytes-aliases-c-memory", "C09-cbytes-empty-slice"
+# validation aid: C09_ASSUME_FIXED=id,id treats open findings as fixed (no avoidance, probe must pass) without editing findings/C09.json
+for _f in chk.findings:
+    if _f["id"] in os.environ.get("C09_ASSUME_FIXED", "").split(","):
+        _f["status"] = "fixed"
 avoid = tuple(a for a, f in (("regsplit", F_REGSPLIT), ("nestedpad", F_NESTED)) if chk.is_open(f))
 
 REPLAY_SH = "#!/bin/sh\n# rebuilds the C side with gcc -O1, the Go side with llgo (-O0) from $VERIF_REPO (default /repo), compares with expected.*.txt\nexec python3 %s/gen/c09_run.py \"$(dirname \"$0\")\"\n" % core.V
